@@ -1,4 +1,307 @@
-/-! Model/C14 — executable model (core Lean only; imports only NibabelModel.Basic.* / other Model files). -/
+import NibabelModel.Model.C06
+import NibabelModel.Generated.C14
+/-!
+  Model/C14 — concurrent reads through a shared file handle (core Lean only).
+
+  Python modelled (file:lines of /repo at the time of writing):
+  * nibabel/arrayproxy.py:215        `self._lock = RLock()`
+  * nibabel/arrayproxy.py:221-236    `copy()` — the new proxy shares `_lock` iff `file_like` is a handle
+  * nibabel/arrayproxy.py:366-385    `_get_fileobj` — lazily created persistent `ImageOpener` (`_opener` slot)
+  * nibabel/arrayproxy.py:387-409    `_get_unscaled` — whole-array path `with fileobj, self._lock: array_from_file`,
+                                     sliced path `fileslice(..., lock=self._lock)`
+  * nibabel/fileslice.py:631-682     `read_segments` — per segment `with lock: seek(offset); read(length)`
+  * nibabel/volumeutils.py:441-480   `array_from_file` — `np.memmap` attempt (`seek(0,2); tell()`), then
+                                     `seek(offset); readinto(n_bytes)`
+
+  Small-step semantics.  Shared state: the position of every file handle, the slot holding the
+  persistent opener, every lock's owner and RLock re-entrancy count.  Each thread has a program (list of
+  atomic actions), the handle its `fileobj` variable refers to (`cur`) and the handle it opened last
+  (`mine`).  A schedule is a list of thread ids; each entry lets that thread perform ONE atomic action
+  (a thread whose `acquire` finds the lock owned by another thread performs the no-op `blocked`).
+  The CPython scheduler is abstracted as "any interleaving of these atomic actions" (trusted base).
+-/
 namespace Nb.C14
+
+abbrev Tid := Nat
+abbrev Byte := Nat
+
+/-- atomic actions of a thread -/
+inductive Action where
+  | acquire (l : Nat)      -- `lock.acquire()` / `with lock:` entry, lock number `l` (RLock: re-entrant)
+  | release (l : Nat)      -- `lock.release()` / `with lock:` exit
+  | seek (o : Nat)         -- `fileobj.seek(o)` on the thread's current handle
+  | seekEnd                -- `fileobj.seek(0, 2)`   (first step of `np.memmap(fileobj, ...)`)
+  | tell                   -- `fileobj.tell()`       (second step of `np.memmap`)
+  | read (n : Nat)         -- `fileobj.read(n)` / `fileobj.readinto(bytearray(n))`
+  | probe (k : Nat)        -- `hasattr(self, '_opener')`: when the slot is filled the next `k` actions are skipped
+  | opn                    -- `ImageOpener(path)`: a fresh handle
+  | setSlot                -- `self._opener = <the handle just opened>`
+  | getSlot                -- `fileobj = self._opener`
+  deriving Repr, DecidableEq, Inhabited
+
+/-- observable event of one step -/
+inductive Ev where
+  | acq (l : Nat) | rel (l : Nat) | blocked (l : Nat) | relErr (l : Nat)
+  | seek (h o : Nat) | seekEnd (h : Nat) | tell (h p : Nat) | read (h n : Nat) (data : List Byte)
+  | get (v : Option Nat) | opn (h : Nat) | setSlot (h : Nat)
+  | idle
+  deriving Repr, DecidableEq, Inhabited
+
+structure Thread where
+  prog : List Action
+  cur  : Nat := 0        -- handle `fileobj` refers to
+  mine : Nat := 0        -- handle created by this thread's last `opn`
+  deriving Repr, DecidableEq, Inhabited
+
+structure State where
+  pos     : Nat → Nat            -- file position of every handle
+  nh      : Nat                  -- number of handles allocated so far
+  slot    : Option Nat           -- `self._opener` (none = attribute absent)
+  owner   : Nat → Option Tid     -- per lock: owning thread
+  count   : Nat → Nat            -- per lock: RLock recursion level
+  threads : Tid → Thread
+
+/-- point update of a function -/
+def upd {α : Type} (f : Nat → α) (k : Nat) (v : α) : Nat → α := fun x => if x = k then v else f x
+
+@[simp] theorem upd_same {α : Type} (f : Nat → α) (k : Nat) (v : α) : upd f k v k = v := by simp [upd]
+theorem upd_other {α : Type} (f : Nat → α) (k x : Nat) (v : α) (h : x ≠ k) : upd f k v x = f x := by
+  simp [upd, h]
+
+/-- `file[o : o+n]` (a read at or beyond the end returns fewer / no bytes, as `BytesIO`/files do) -/
+def slice (file : List Byte) (o n : Nat) : List Byte := (file.drop o).take n
+
+/-- One atomic step of thread `t`. -/
+def step (file : List Byte) (s : State) (t : Tid) : State × Ev :=
+  let th := s.threads t
+  match th.prog with
+  | [] => (s, .idle)
+  | a :: rest =>
+    let adv : Thread := { th with prog := rest }
+    match a with
+    | .acquire l =>
+        match s.owner l with
+        | none => ({ s with owner := upd s.owner l (some t), count := upd s.count l 1,
+                            threads := upd s.threads t adv }, .acq l)
+        | some u =>
+            if u = t then
+              ({ s with count := upd s.count l (s.count l + 1), threads := upd s.threads t adv }, .acq l)
+            else (s, .blocked l)
+    | .release l =>
+        if s.owner l = some t then
+          if s.count l ≤ 1 then
+            ({ s with owner := upd s.owner l none, count := upd s.count l 0,
+                      threads := upd s.threads t adv }, .rel l)
+          else ({ s with count := upd s.count l (s.count l - 1), threads := upd s.threads t adv }, .rel l)
+        else (s, .relErr l)      -- RuntimeError in Python: the thread makes no further progress
+    | .seek o => ({ s with pos := upd s.pos th.cur o, threads := upd s.threads t adv }, .seek th.cur o)
+    | .seekEnd =>
+        ({ s with pos := upd s.pos th.cur file.length, threads := upd s.threads t adv }, .seekEnd th.cur)
+    | .tell => ({ s with threads := upd s.threads t adv }, .tell th.cur (s.pos th.cur))
+    | .read n =>
+        let d := slice file (s.pos th.cur) n
+        ({ s with pos := upd s.pos th.cur (s.pos th.cur + d.length), threads := upd s.threads t adv },
+         .read th.cur n d)
+    | .probe k =>
+        match s.slot with
+        | none => ({ s with threads := upd s.threads t adv }, .get none)
+        | some h => ({ s with threads := upd s.threads t { th with prog := rest.drop k } }, .get (some h))
+    | .opn => ({ s with nh := s.nh + 1, threads := upd s.threads t { adv with mine := s.nh } }, .opn s.nh)
+    | .setSlot => ({ s with slot := some th.mine, threads := upd s.threads t adv }, .setSlot th.mine)
+    | .getSlot =>
+        match s.slot with
+        | none => (s, .get none)   -- AttributeError in Python: the thread makes no further progress
+        | some h => ({ s with threads := upd s.threads t { adv with cur := h } }, .get (some h))
+
+/-- state after a schedule -/
+def runS (file : List Byte) : State → List Tid → State
+  | s, [] => s
+  | s, t :: sched => runS file (step file s t).1 sched
+
+/-- event trace of a schedule -/
+def trace (file : List Byte) : State → List Tid → List (Tid × Ev)
+  | _, [] => []
+  | s, t :: sched => (t, (step file s t).2) :: trace file (step file s t).1 sched
+
+/-! ### what a thread sees of the file -/
+
+/-- file-level events (handle numbers dropped) -/
+inductive DEv where
+  | seek (o : Nat) | seekEnd | tell (p : Nat) | read (n : Nat) (data : List Byte)
+  deriving Repr, DecidableEq, Inhabited
+
+def Ev.data : Ev → Option DEv
+  | .seek _ o => some (.seek o)
+  | .seekEnd _ => some .seekEnd
+  | .tell _ p => some (.tell p)
+  | .read _ n d => some (.read n d)
+  | _ => none
+
+/-- the file events of thread `t` in a trace -/
+def dataProj (t : Tid) (tr : List (Tid × Ev)) : List DEv :=
+  tr.filterMap (fun x => if x.1 = t then x.2.data else none)
+
+/-- The single-threaded meaning of a program: the file events it produces when it runs ALONE on a private
+    handle whose position is `p` (locks and the opener slot play no role for a lone thread). -/
+def solo (file : List Byte) : Nat → List Action → List DEv
+  | _, [] => []
+  | _, .seek o :: r => .seek o :: solo file o r
+  | _, .seekEnd :: r => .seekEnd :: solo file file.length r
+  | p, .tell :: r => .tell p :: solo file p r
+  | p, .read n :: r => .read n (slice file p n) :: solo file (p + (slice file p n).length) r
+  | p, _ :: r => solo file p r
+
+/-! ### the locked shape -/
+
+def Action.slotOnly : Action → Bool
+  | .opn => true
+  | .setSlot => true
+  | _ => false
+
+/-- `wf L d e prog`: every file operation of `prog` happens while lock `L` is held (`d` = current recursion
+    level of `L` for this thread) and, inside each outermost critical section, no `read`/`tell` happens before
+    the thread has positioned the handle itself (`e` = the position is the thread's own). -/
+def wf (L : Nat) : Nat → Bool → List Action → Bool
+  | _, _, [] => true
+  | d, e, .acquire l :: p => if l = L then wf L (d + 1) e p else wf L d e p
+  | d, e, .release l :: p => if l = L then d != 0 && wf L (d - 1) (e && d != 1) p else wf L d e p
+  | d, _, .seek _ :: p => d != 0 && wf L d true p
+  | d, _, .seekEnd :: p => d != 0 && wf L d true p
+  | d, e, .tell :: p => d != 0 && e && wf L d e p
+  | d, e, .read _ :: p => d != 0 && e && wf L d e p
+  | d, e, .probe k :: p => (p.take k).all Action.slotOnly && wf L d e p
+  | d, e, .opn :: p => wf L d e p
+  | d, e, .setSlot :: p => wf L d e p
+  | d, _, .getSlot :: p => wf L d false p
+
+/-- initial state: `nh` handles exist (all at position `p0 h`), nobody holds a lock -/
+def State.init (progs : Tid → List Action) (nh : Nat) (p0 : Nat → Nat := fun _ => 0) : State :=
+  { pos := p0, nh := nh, slot := none, owner := fun _ => none, count := fun _ => 0,
+    threads := fun t => { prog := progs t } }
+
+/-! ### the programs nibabel's read paths produce -/
+
+/-- `read_segments(fileobj, segments, n_bytes, lock)`: per segment `with lock: seek; read` -/
+def lockedSegs (l : Nat) (segs : List (Nat × Nat)) : List Action :=
+  segs.flatMap (fun sg => [.acquire l, .seek sg.1, .read sg.2, .release l])
+
+/-- `with self._lock: array_from_file(...)`; `memmapTry` = `np.memmap` is attempted first (mmap=True) and
+    `reads` = it fails (no `fileno`) so the data is read with `seek; readinto` -/
+def lockedWhole (l : Nat) (memmapTry reads : Bool) (off n : Nat) : List Action :=
+  [.acquire l] ++ (if memmapTry then [.seekEnd, .tell] else []) ++
+    (if reads then [.seek off, .read n] else []) ++ [.release l]
+
+/-- `_get_fileobj` with a persistent opener: `if not hasattr(self,'_opener'): self._opener = ImageOpener(..)`
+    then `yield self._opener` -/
+def getFileobjPersist : List Action := [.probe 2, .opn, .setSlot, .getSlot]
+
+/-- `ArrayProxy.copy()`: the lock the copy uses (`fresh` = the lock its `__init__` created) -/
+def copyLock (hasFh : Bool) (srcLock fresh : Nat) : Nat := if hasFh then srcLock else fresh
+
+/-- same programs with the lock operations removed (`_NullLock`) -/
+def unlocked (p : List Action) : List Action :=
+  p.filter (fun a => match a with | .acquire _ => false | .release _ => false | _ => true)
+
+/-- per segment `with lock: seek` … `with lock: read` (lock released between seek and read) -/
+def splitSegs (l : Nat) (segs : List (Nat × Nat)) : List Action :=
+  segs.flatMap (fun sg => [.acquire l, .seek sg.1, .release l, .acquire l, .read sg.2, .release l])
+
+/-! ### from a proxy read request to a program and a result (uses the C06 segment model) -/
+
+structure Cfg where
+  persist : Bool          -- path + keep_file_open=True  (else: proxy over an open handle)
+  mmap    : Bool
+  order   : Nb.C06.Order
+  isz     : Nat
+  off     : Nat
+  flen    : Nat
+  shape   : List Nat
+
+/-- one read request of a thread: through which lock, `idx = none` is `np.asarray(proxy)`,
+    `outer` = the caller itself wraps the read in `with proxy._lock:` (RLock re-entrancy) -/
+structure Req where
+  lock  : Nat
+  outer : Bool
+  idx   : Option (List Nb.C06.IdxItem)
+
+/-- the test file: `off` header bytes, element `q` stored little-endian in `isz` bytes, trailing bytes -/
+def mkFile (c : Cfg) : List Byte :=
+  let n := c.shape.foldl (· * ·) 1
+  let hdr := (List.range c.off).map (fun i => (37 * i + 11) % 251)
+  let body := (List.range n).flatMap (fun q => (List.range c.isz).map (fun b => (q / 256 ^ b) % 256))
+  let used := c.off + n * c.isz
+  hdr ++ body ++ (List.range (c.flen - used)).map (fun i => (91 * i + 7) % 253)
+
+def decodeLE (isz : Nat) (bytes : List Byte) : List Nat :=
+  if isz = 0 then [] else
+  (List.range (bytes.length / isz)).map (fun k =>
+    ((List.range isz).map (fun b => bytes.getD (k * isz + b) 0 * 256 ^ b)).foldl (· + ·) 0)
+
+/-- `_get_unscaled` takes the whole-array path iff the canonical slicers equal those of `()` -/
+def isWhole (idx : List Nb.C06.IdxItem) (shape : List Nat) : Option Bool :=
+  match Nb.C06.canonLoop false idx shape, Nb.C06.canonLoop false [] shape with
+  | .ok a, .ok b => some (a == b)
+  | _, _ => none
+
+inductive Res where
+  | ok (shape : List Nat) (elems : List Nat)
+  | err
+  deriving Repr, DecidableEq, Inhabited
+
+/-- program of one read request, number of `read` events it performs, and how the bytes read become the
+    returned array (shape, elements enumerated in `order`) -/
+structure Plan where
+  prog   : List Action
+  nreads : Nat
+  finish : List Byte → Res
+
+def errPlan : Plan := ⟨[], 0, fun _ => .err⟩
+
+def wrapOuter (r : Req) (p : List Action) : List Action :=
+  if r.outer then [.acquire r.lock] ++ p ++ [.release r.lock] else p
+
+def plan (c : Cfg) (r : Req) : Plan :=
+  let file := mkFile c
+  let n := c.shape.foldl (· * ·) 1
+  let pre := if c.persist then getFileobjPersist else []
+  let wholePlan : Plan :=
+    -- a real file can be memory mapped: no read, the data come from the mapping (np.memmap/OS contract)
+    let mapped := c.mmap && c.persist
+    ⟨wrapOuter r (pre ++ lockedWhole r.lock c.mmap (!mapped) c.off (n * c.isz)),
+     if mapped then 0 else 1,
+     fun bytes =>
+       let b := if mapped then slice file c.off (n * c.isz) else bytes
+       if b.length ≠ n * c.isz then .err else .ok c.shape (decodeLE c.isz b)⟩
+  match r.idx with
+  | none => wholePlan
+  | some idx =>
+    match isWhole idx c.shape with
+    | none => errPlan
+    | some true => wholePlan
+    | some false =>
+      match Nb.C06.calcSlicedefs (Nb.C06.thresholdHeuristic Gen.skipThresh) idx c.shape c.isz c.off c.order with
+      | .error _ => errPlan
+      | .ok d =>
+        let segs := d.segments.map (fun sg => (sg.offset.toNat, sg.length))
+        let want := d.readShape.foldl (· * ·) 1 * c.isz
+        ⟨wrapOuter r (pre ++ lockedSegs r.lock segs), segs.length,
+         fun bytes =>
+           if bytes.length ≠ want then .err else
+           match Nb.C06.postSels d.post d.readShape with
+           | .error _ => .err
+           | .ok sels =>
+             let a : Nb.C06.NdArr Nat := ⟨d.readShape, decodeLE c.isz bytes⟩
+             let out := a.index sels
+             .ok (Nb.C06.orient c.order out.shape) out.data⟩
+
+/-- data of the `read` events of thread `t`, in order -/
+def readsOf (t : Tid) (tr : List (Tid × Ev)) : List (List Byte) :=
+  tr.filterMap (fun x => if x.1 = t then (match x.2 with | .read _ _ d => some d | _ => none) else none)
+
+/-- distribute a thread's read data over its requests -/
+def results : List Plan → List (List Byte) → List Res
+  | [], _ => []
+  | p :: ps, rd =>
+      (if rd.length < p.nreads then .err else p.finish (rd.take p.nreads).flatten) :: results ps (rd.drop p.nreads)
 
 end Nb.C14
